@@ -14,7 +14,8 @@ use std::sync::OnceLock;
 pub const KF_LOST_ACK: &str = "lost-ack-not-repaired";
 pub const KF_ZERO_WINDOW: &str = "zero-window-stall";
 pub const KF_LOST_HSACK: &str = "lost-handshake-ack";
-pub const ALL_KF: &[&str] = &[KF_LOST_HSACK, KF_ZERO_WINDOW, KF_LOST_ACK];
+pub const KF_HS_BUDGET: &str = "handshake-retransmits-charged-to-data";
+pub const ALL_KF: &[&str] = &[KF_LOST_HSACK, KF_ZERO_WINDOW, KF_LOST_ACK, KF_HS_BUDGET];
 
 /// Which of the known defects the tree under test still has, decided once per process by running
 /// the three minimal trigger scenarios (the proposed repairs make all three pass).
@@ -23,11 +24,12 @@ pub struct Defects {
     pub lost_ack: bool,
     pub zero_window: bool,
     pub lost_hsack: bool,
+    pub hs_budget: bool,
 }
 
 impl Defects {
     pub fn any(&self) -> bool {
-        self.lost_ack || self.zero_window || self.lost_hsack
+        self.lost_ack || self.zero_window || self.lost_hsack || self.hs_budget
     }
 }
 
@@ -73,12 +75,27 @@ pub fn canary_lost_hsack() -> Scenario {
     )
 }
 
+/// (d) retransmit counters are not reset when the handshake completes: a SYN-ACK that was
+/// retransmitted while its ACK was merely slow leaves the first data segment without budget.
+pub fn canary_hs_budget() -> Scenario {
+    let mut cfg = base_cfg();
+    cfg.retx_threshold = 3;
+    cfg.retx_max = 1;
+    let d = |dir: u8, kind: Kind| Fault { sel: Sel::Kind { dir, kind, nth: 0 }, act: Act::Delay(1) };
+    base_scenario(
+        [plain_side(0, 64, Close::AfterEof), plain_side(10, 64, Close::Shutdown)],
+        cfg,
+        Plan { faults: vec![d(S2C, Kind::SynAck), d(C2S, Kind::HsAck), d(S2C, Kind::Data)], hole: Hole::None, reorder: vec![] },
+    )
+}
+
 pub fn defects() -> Defects {
     static D: OnceLock<Defects> = OnceLock::new();
     *D.get_or_init(|| Defects {
         lost_ack: run_conn(&canary_lost_ack(), false).v6.is_some(),
         zero_window: run_conn(&canary_zero_window(), false).v6.is_some(),
         lost_hsack: run_conn(&canary_lost_hsack(), false).v6.is_some(),
+        hs_budget: run_conn(&canary_hs_budget(), false).v6.is_some(),
     })
 }
 
@@ -104,6 +121,16 @@ pub fn trigger_zero_window(sc: &Scenario) -> bool {
     false
 }
 
+/// Static trigger of (d): the retransmit attempts a slow handshake used up are charged to the
+/// first data segment, so delays can exhaust a small budget without any loss.
+pub fn trigger_hs_budget(sc: &Scenario) -> bool {
+    let delays = sc.plan.faults.iter().filter(|f| matches!(f.act, Act::Delay(_))).count();
+    match sc.cfg.retx_max {
+        0..=2 => delays >= 1,
+        _ => delays >= 2,
+    }
+}
+
 /// Dynamic triggers of (a) and (c): which kinds of packets did the plan actually drop?
 pub fn dropped_kinds(fired: &[Fired]) -> Vec<Kind> {
     let mut v: Vec<Kind> = fired.iter().filter(|f| f.act == Act::Drop).map(|f| f.kind).collect();
@@ -118,7 +145,8 @@ pub fn dropped_kinds(fired: &[Fired]) -> Vec<Kind> {
 /// re-acknowledged) or delays long enough to make a spurious retransmission cross its own ACK;
 /// (b) the static zero-window trigger and no packet lost that is not a window update.
 pub fn classify_known(sc: &Scenario, out: &Outcome, class: &str) -> Option<&'static str> {
-    let liveness = matches!(class, "Stall" | "Hang" | "ErrorTimedOut");
+    // an abort that nobody observes locally shows up at the peer as a reset or as a wait without end
+    let liveness = matches!(class, "Stall" | "Hang" | "ErrorTimedOut" | "ErrorConnectionReset");
     if !liveness {
         return None;
     }
@@ -129,8 +157,11 @@ pub fn classify_known(sc: &Scenario, out: &Outcome, class: &str) -> Option<&'sta
     if trigger_zero_window(sc) && (out.zero_window_seen || !sc.topo.cross()) && dk.iter().all(|k| matches!(k, Kind::WinUpd | Kind::Ack)) {
         return Some(KF_ZERO_WINDOW);
     }
-    if !dk.is_empty() && dk.iter().all(|k| matches!(k, Kind::Ack | Kind::WinUpd | Kind::HsAck)) {
+    if !dk.is_empty() && dk.iter().all(|k| matches!(k, Kind::Ack | Kind::WinUpd | Kind::HsAck | Kind::Fin)) {
         return Some(KF_LOST_ACK);
+    }
+    if dk.is_empty() && trigger_hs_budget(sc) && out.fired.iter().any(|f| matches!(f.act, Act::Delay(_))) {
+        return Some(KF_HS_BUDGET);
     }
     None
 }
@@ -268,12 +299,16 @@ pub fn gen_bounded_plan(rng: &mut Rng, cfg: &Cfg, npkts_hint: u32, avoid: &Defec
     plan
 }
 
-fn gen_heavy_plan(rng: &mut Rng, span: u32) -> Plan {
+/// More loss and delay than the premise of the liveness clause allows: safety only.
+fn gen_heavy_plan(rng: &mut Rng, cfg: &Cfg, span: u32) -> Plan {
     let mut plan = Plan::none();
     let n = rng.range(3, 14);
     for _ in 0..n {
         let act = if rng.chance(1, 2) { Act::Drop } else { Act::Delay(rng.range(1, 25) as u32) };
         plan.faults.push(Fault { sel: Sel::Idx(rng.below(span.max(10) as u64) as u32), act });
+    }
+    while plan_is_bounded(cfg, &plan) {
+        plan.faults.push(Fault { sel: Sel::Idx(rng.below(span.max(10) as u64) as u32), act: Act::Drop });
     }
     let r = rng.range(0, 20);
     plan.reorder = (0..r).map(|_| *rng.pick(&[Order::Fifo, Order::Rev, Order::Swap, Order::Rot])).collect();
@@ -331,7 +366,7 @@ pub fn generate(rng: &mut Rng, spread: &Spread) -> Scenario {
                 let hole = if rng.chance(1, 2) { Hole::All { from } } else { Hole::Dir { from, dir: rng.below(2) as u8 } };
                 Plan { faults: vec![], hole, reorder: vec![] }
             }
-            _ => gen_heavy_plan(rng, span),
+            _ => gen_heavy_plan(rng, &cfg, span),
         }
     };
     let udp = if spread.wide && rng.chance(1, 2) {
@@ -373,6 +408,13 @@ pub fn generate(rng: &mut Rng, spread: &Spread) -> Scenario {
         spurious: if rng.chance(1, 4) { rng.range(1, 5) as u8 } else { 0 },
         udp,
     };
+    if guarded && avoid.hs_budget && mode_of(&sc) == Mode::Bounded {
+        // keep clear of (d): drop delay faults until the static trigger is gone
+        while trigger_hs_budget(&sc) {
+            let i = sc.plan.faults.iter().position(|f| matches!(f.act, Act::Delay(_))).unwrap();
+            sc.plan.faults.remove(i);
+        }
+    }
     if guarded && avoid.zero_window && trigger_zero_window(&sc) {
         // a drop / delay in the plan turned a harmless small cap into a trigger: enlarge the buffer
         sc.cfg.recv_cap = 65536;
@@ -412,8 +454,7 @@ pub fn variants(base: &Scenario, tier: Tier, max_single: usize) -> Vec<Scenario>
         if drop && avoid.lost_hsack && kinds.contains(&Kind::HsAck) {
             return false;
         }
-        if avoid.lost_ack && !drop && kinds.iter().any(|k| k.is_pure_ack()) {
-            // a delayed ACK can cross a retransmission and be ignored, leaving only duplicates behind
+        if avoid.hs_budget && trigger_hs_budget(s) {
             return false;
         }
         !(avoid.zero_window && trigger_zero_window(s))
